@@ -104,6 +104,29 @@ func execOrder(c OrderCase) (res evid.Result) {
 			}
 		}
 	}
+	// The same questions asked of names that share one backing array: callers routinely
+	// slice names (n[:i]); the answers must not depend on the representation. (Added after a
+	// seeded defect -- an aliasing "fast path" in IsPrefix -- was missed: the unit only ever
+	// compared separately built values.)
+	for i := 0; i < 3; i++ {
+		z := e1[i]
+		for k := 0; k <= len(z); k++ {
+			p := z[:k]
+			for k2 := 0; k2 <= len(z); k2++ {
+				q := z[:k2]
+				if got, want := p.IsPrefix(q), k <= k2; got != want {
+					return evid.Result{Err: fmt.Errorf("IsPrefix on slices of one name: %c[:%d].IsPrefix(%c[:%d]) = %v, want %v (%s)", label[i], k, label[i], k2, got, want, plain[i])}
+				}
+				if got, want := p.Equal(q), k == k2; got != want {
+					return evid.Result{Err: fmt.Errorf("Equal on slices of one name: %c[:%d] vs %c[:%d] = %v, want %v (%s)", label[i], k, label[i], k2, got, want, plain[i])}
+				}
+				if got, want := sgn(p.Compare(q)), sgn(k-k2); got != want {
+					return evid.Result{Err: fmt.Errorf("Compare on slices of one name: %c[:%d] vs %c[:%d] = %d, want %d (%s)", label[i], k, label[i], k2, got, want, plain[i])}
+				}
+			}
+		}
+	}
+
 	// transitivity over all orderings of the triple
 	for _, p := range [][3]int{{0, 1, 2}, {0, 2, 1}, {1, 0, 2}, {1, 2, 0}, {2, 0, 1}, {2, 1, 0}} {
 		x, y, z := e1[p[0]], e1[p[1]], e1[p[2]]
